@@ -81,6 +81,10 @@ class ApplyError(Exception):
     pass
 
 
+class NotApplicable(Exception):
+    pass
+
+
 def _cleared(v):
     if isinstance(v, list): return []
     if isinstance(v, dict): return {}
@@ -109,7 +113,12 @@ def _resolved_diff(v, d):
     if a in ('clear', 'remove', 'take_max'):
         if len(keys) != 1: raise ApplyError('%s needs exactly one key' % a)
         k = keys.pop()
-        if a == 'clear': return [{'op': 'replace', 'key': k, 'value': _cleared(v[k])}]
+        if a == 'clear':
+            if not isinstance(v, dict):
+                # nbdime emits `replace` on a list item here (a `clear` decision whose diffs were wrapped by inline-outputs'
+                # bundle_decisions_by_index); the documented format has no such op -> the own applier does not apply
+                raise NotApplicable('clear on a sequence item')
+            return [{'op': 'replace', 'key': k, 'value': _cleared(v[k])}]
         if a == 'remove': return [{'op': 'removerange', 'key': k, 'length': 1}] if isinstance(v, (list, str)) else [{'op': 'remove', 'key': k}]
         bval = v[k]; lval = ld[0]['value'] if ld else bval; rval = rd[0]['value'] if rd else bval
         m = max(bval, lval, rval)
